@@ -302,6 +302,11 @@ func (s SFlowIPType) Length() int {
 func (s *SFlowDatagram) DecodeFromBytes(data []byte, df gopacket.DecodeFeedback) error {
 	var agentAddressType SFlowIPType
 
+	// The samples are appended below: start from empty lists, so that a
+	// reused SFlowDatagram does not keep the samples of earlier datagrams.
+	s.FlowSamples = nil
+	s.CounterSamples = nil
+
 	if len(data) < 8 {
 		df.SetTruncated()
 		return errors.New("SFlow datagram too short")
